@@ -55,6 +55,11 @@ PTAB = {
     'target': ('target', {'type': 'double'},     # same wire catalogue as 'value' (bare identifiers resolve to either)
                {'w1': 1.5, 'w2': 3, 'w3': -2.25, 'wbad': 'abc'},
                {'w1': 1.5, 'w2': 3.0, 'w3': -2.25}),
+    # custom accessibles whose name is underscore + a predefined name keep the underscore as internal name
+    '_target': ('_target', {'type': 'double'},
+                {'w1': 1.5, 'w2': 3, 'w3': -2.25, 'wbad': 'abc'}, {'w1': 1.5, 'w2': 3.0, 'w3': -2.25}),
+    '_value': ('_value', {'type': 'double'},
+               {'w1': 1.5, 'w2': 3, 'w3': -2.25, 'wbad': 'abc'}, {'w1': 1.5, 'w2': 3.0, 'w3': -2.25}),
     'x': ('_x', {'type': 'enum', 'members': {'a': 1, 'b': 2, 'c': 5}},
           {'w1': 1, 'w2': 5, 'w3': 2, 'wbad': 7},
           {'w1': ('enum', 1, 'a'), 'w2': ('enum', 5, 'c'), 'w3': ('enum', 2, 'b')}),
@@ -171,8 +176,12 @@ def g_desc(desc):
                                   'implementation': 'gen', 'features': []})['accessibles']
         acc[PTAB[p][0]] = {'description': p, 'datainfo': PTAB[p][1], 'readonly': False}
     for md in mods.values():
-        md['accessibles']['cmd'] = {'description': 'a command', 'datainfo': {'type': 'command'}}
+        for c in DESC_CMDS:     # predefined command name, the same with an underscore (custom), a custom one
+            md['accessibles'][c] = {'description': 'a command', 'datainfo': {'type': 'command'}}
     return {'modules': mods, 'equipment_id': 'gen', 'description': 'generated', 'firmware': 'x'}
+
+
+DESC_CMDS = ['cmd', 'stop', '_stop']      # = DescCmds of the cfg files; wire name = internal name
 
 
 def g_ident(ident):
@@ -294,11 +303,13 @@ class MsgWorld:
         self.handled_errors = 0
         self.skipped = []
         self.describe(desc)
+        self.names0, self.names = self.names, None
 
     # -- gamma
     def describe(self, desc):
         self.desc = sorted(tuple(k) for k in desc)
         self.client._init_descriptive_data(g_desc(self.desc))
+        self.names = self.a_names()      # reported with the next observation
 
     def make_cb(self, cb):
         key = cbkey(cb)
@@ -359,6 +370,18 @@ class MsgWorld:
                         res.append([list(cb['level']), cb['kind'], cb['beh']])
         return sorted(res, key=json.dumps)
 
+    def a_names(self):
+        """the client's two name maps, identifiers written as the (module, internal name) gamma sends them for"""
+        back = {}
+        for m, _ in self.desc:
+            for p, tab in PTAB.items():
+                back['%s:%s' % (m, tab[0])] = [m, p]
+            for c in DESC_CMDS:
+                back['%s:%s' % (m, c)] = [m, c]
+        idmap = sorted([[m, p], back.get(ident, ['?', ident])] for (m, p), ident in self.client.identifier.items())
+        intmap = sorted([back.get(ident, ['?', ident]), [m, p]] for ident, (m, p) in self.client.internal.items())
+        return {'idmap': idmap, 'intmap': intmap}
+
     def a_waiting(self):
         res = []
         for key in self.client.active_requests:
@@ -370,6 +393,8 @@ class MsgWorld:
              'released': bool(self.released), 'seen': self.released[0].seen if self.released else []}
         self.calls = []
         self.released = []
+        if self.names:
+            o['names'], self.names = self.names, None
         return o
 
     # -- driving
@@ -529,14 +554,22 @@ def _replay(beh):
         raise
     except Exception as e:   # the receive loop or a registration raised: an observable outcome
         return {'step': -1, 'action': {'act': 'exception'}, 'expected': {}, 'observed': {'exception': repr(e)}}
+    names_bad = None
+    if 'ids' in beh[0] and (w.names0['idmap'] != sorted(beh[0]['ids']) or w.names0['intmap'] != sorted(beh[0]['ids'])):
+        # reported if nothing else differs (a wrong name map usually shows in cache / callback keys, too)
+        names_bad = {'step': -1, 'action': {'act': 'descr'}, 'expected': {'names': sorted(beh[0]['ids'])},
+                     'observed': {'names': w.names0}}
     for i, (st, o) in enumerate(zip(beh[1:], obs)):
         exp = _exp_obs(st)
         got = _got_obs(o, exp)
+        if 'ids' in st:     # both name maps are the identity on the described accessibles
+            exp['names'] = {'idmap': sorted(st['ids']), 'intmap': sorted(st['ids'])}
+            got['names'] = o.get('names')
         if got != exp:
             return {'step': i, 'action': {k: v for k, v in st.items() if k != 'exp'}, 'expected': exp, 'observed': got}
     if len(obs) != len(beh) - 1:
         return {'step': len(obs), 'action': {'act': 'end'}, 'expected': {'steps': len(beh) - 1}, 'observed': {'steps': len(obs)}}
-    return None
+    return names_bad
 
 
 def _msg_class(st):
@@ -557,7 +590,7 @@ def _msg_class(st):
 # ------------------------------------------------------------------ code -> spec, message level
 
 R_MODS = ['m1', 'm2', 'm3']
-R_PNAMES = ['value', 'target', 'x', 'y', 's']
+R_PNAMES = ['value', 'target', 'x', 'y', 's', '_target', '_value']
 R_ENAMES = list(ETAB)
 R_SHAPES = ['short', 'scalar', 'badq', 'badt', 'nodata', 'badtext']
 
@@ -648,7 +681,7 @@ def _record(w, steps):
     first_desc = w.desc
     obs = w.run(steps)
     done = [st for st in steps if not any(st is x for x in w.skipped)]
-    trace = [{'ev': 'descr', 'desc': [list(k) for k in first_desc], 'cache': []}]
+    trace = [dict({'ev': 'descr', 'desc': [list(k) for k in first_desc], 'cache': []}, **w.names0)]
     for st, o in zip(done, obs):
         ev = {k: v for k, v in st.items() if k not in ('maybe', 'single')}
         ev['cache'] = [{'m': c[0], 'p': c[1], 'e': _rec(c[2:])} for c in o['cache']]
@@ -658,6 +691,8 @@ def _record(w, steps):
             ev['calls'] = [{'cb': c['cb'], 'm': c['m'], 'p': c['p'], 'e': _rec(c['e'])} for c in o['calls']]
             ev['released'] = o['released']
             ev['seen'] = [{'m': c[0], 'p': c[1], 'e': _rec(c[2:])} for c in o['seen']]
+        elif st['ev'] == 'descr':
+            ev.update(o.get('names') or {'idmap': [], 'intmap': []})
         elif st['ev'] == 'register':
             ev['icalls'] = [{'m': c['m'], 'p': c['p'], 'e': _rec(c['e'])} for c in o['calls']
                             if cbkey(c['cb']) == cbkey(st['cb'])]
@@ -871,8 +906,8 @@ def a_tree(kind, v, path=None):
     raise MachineryError('unknown kind ' + kind)
 
 
-BASE = {'value': 'double'}     # parameter name -> kind of its datatype (a predefined accessible name among the custom ones)
-PKINDS = KINDS + ['value']
+BASE = {'value': 'double', 'target': 'double', '_target': 'double'}     # parameter name -> kind of its datatype (a predefined accessible name among the custom ones)
+PKINDS = KINDS + ['value', 'target']
 
 
 def _make_driver_class(without=()):
@@ -924,6 +959,31 @@ def _make_driver_class(without=()):
         self.rec.append(('c', 'noarg', None))
         return scripted(self, 'c_noarg')
     attrs['c_noarg'] = Command(result=IntRange(-50, 50))(c_noarg)
+
+    # custom accessibles exported as underscore + predefined name, next to the predefined ones (the client knows
+    # them as '_target' / '_stop'; not used through the proxy, which addresses remote accessibles by attribute name)
+    def w_utarget(self, value):
+        self.rec.append(('w', '_target', value))
+        return scripted(self, '_target')
+
+    def r_utarget(self):
+        self.rec.append(('r', '_target'))
+        return scripted(self, '_target')
+
+    def stop(self):
+        """predefined command name"""
+        self.rec.append(('c', 'stop', None))
+        return scripted(self, 'c_stop')
+
+    def ustop(self):
+        """custom command exported as _stop"""
+        self.rec.append(('c', '_stop', None))
+        return scripted(self, 'c__stop')
+    dt = _datatypes()['double']
+    attrs.update(utarget=Parameter('custom parameter exported as _target', dt, readonly=False, default=dt.default, export='_target'),
+                 write_utarget=w_utarget, read_utarget=r_utarget,
+                 stop=Command(result=IntRange(-50, 50))(stop),
+                 ustop=Command(result=IntRange(-50, 50), export='_stop')(ustop))
     return type('GenDriver', (Module,), attrs)
 
 
@@ -1320,6 +1380,23 @@ def _e2e_batch(arg):
             ret_a, drv.script['c_noarg'] = _gen_value('int', rnd)
             rig.request({'op': 'do', 'kind': 'noarg', 'path': path, 'sent': none, 'returned': ret_a},
                         lambda: c.execCommand(mod, 'c_noarg'), lambda res: a_tree('int', res[0]), received=('c', 'noarg', None))
+        # -- custom accessibles named underscore + predefined name next to the predefined ones: each is reached by its
+        #    own identifier (writes, reads, commands), directly
+        none = {'j': 'atom', 'v': 'none'}
+        for path in ('direct', 'direct_active'):
+            c, mod = clients[path]
+            for name in ('_target', 'target', '_target'):
+                sent_a, sent_c = fresh(name, True)
+                ret_a, drv.script[name] = fresh(name)
+                rig.request({'op': 'write', 'kind': name, 'path': path, 'sent': sent_a, 'returned': ret_a, 'concrete': repr(sent_c)},
+                            lambda: c.setParameter(mod, name, sent_c), rig.item('double'), received=('w', name, 'double'))
+            ret_a, drv.script['_target'] = fresh('_target')
+            rig.request({'op': 'read', 'kind': '_target', 'path': path, 'returned': ret_a},
+                        lambda: c.readParameter(mod, '_target'), rig.item('double'))
+            for name in ('stop', '_stop'):
+                ret_a, drv.script['c_' + name] = _gen_value('int', rnd)
+                rig.request({'op': 'do', 'kind': name, 'path': path, 'sent': none, 'returned': ret_a},
+                            lambda: c.execCommand(mod, name), lambda res: a_tree('int', res[0]), received=('c', name, None))
         # -- large values (the frame leaves the node in pieces) while a thread of the node publishes updates of
         #    another parameter on the same activated connection: directly, and on the proxy's connection to node 1
         watch = {'direct_active': clients['direct_active'][0], 'proxy': pxclient}
@@ -1420,8 +1497,10 @@ def _behaviours(chk, quick, pool):
     """start the generation runs (one JVM each, side by side); returns a function that collects them"""
     # wide alphabet to depth 2, callback-focused alphabet (one parameter, all levels / behaviours) one level deeper
     # ... and one parameter x every error class name of the SECoP table in error_update / error_read / error_change
-    cfgs = (('Gen_ClientCache_quick.cfg', 'Gen_ClientCache_cb_quick.cfg', 'Gen_ClientCache_err.cfg') if quick else
-            ('Gen_ClientCache_thorough.cfg', 'Gen_ClientCache_cb_thorough.cfg', 'Gen_ClientCache_err.cfg'))
+    # ... and modules with custom accessibles named underscore + predefined name, with / without the plain one
+    cfgs = (('Gen_ClientCache_quick.cfg', 'Gen_ClientCache_cb_quick.cfg', 'Gen_ClientCache_err.cfg', 'Gen_ClientCache_names.cfg')
+            if quick else
+            ('Gen_ClientCache_thorough.cfg', 'Gen_ClientCache_cb_thorough.cfg', 'Gen_ClientCache_err.cfg', 'Gen_ClientCache_names.cfg'))
     gens = [(cfg, pool.submit(run_tlc, 'Gen_ClientCache', cfg, workers=1, timeout=1200)) for cfg in cfgs]
     # deeper behaviours sampled by TLC's simulator from the same generation spec
     n, depth, scfg = (16, 10, 'Gen_ClientCache_sim_quick.cfg') if quick else (400, 14, 'Gen_ClientCache_sim_thorough.cfg')
